@@ -154,7 +154,10 @@ func verifExt_s2_Decode(dst, src []byte) ([]byte, error) {
 		return nil, errVerifC19
 	}
 	if verifNondetBool("s2.Decode.corrupt") {
-		return nil, s2.ErrCorrupt
+		if s2.ErrCorrupt != nil {
+			return nil, s2.ErrCorrupt
+		}
+		return nil, errVerifC19 // the executor may skip the library's package initialiser
 	}
 	n := verifConcretize(l)
 	if n <= cap(dst) {
